@@ -896,12 +896,15 @@ class SetIndex(BaseSetIndexSortValues):
             and self.operand("npartitions") is None
         ):
             expr = self.frame
+            other = self._other
             if self.frame.npartitions > 1:
                 expr = RepartitionToFewer(expr, 1)
+                if isinstance(other, Expr):
+                    # the new index is a separate collection that is
+                    # partitioned like the frame
+                    other = RepartitionToFewer(other, 1)
 
-            index_set = SetIndexBlockwise(
-                expr, self._other, self.drop, self.user_divisions
-            )
+            index_set = SetIndexBlockwise(expr, other, self.drop, self.user_divisions)
             return SortIndexBlockwise(index_set)
 
         if self.user_divisions is None:
